@@ -237,8 +237,7 @@ class Ctx(object):
             self.note("atheris is not installed: the coverage-guided campaign was skipped")
             self.inconclusive.append("fuzz:%s skipped (atheris missing)" % target)
             return
-        out = tempfile.NamedTemporaryFile(prefix="fuzz-%s-" % target, suffix=".json", dir=os.path.join(ROOT, ".work")
-                                          if os.path.isdir(os.path.join(ROOT, ".work")) else None, delete=False).name
+        out = tempfile.NamedTemporaryFile(prefix="fuzz-%s-" % target, suffix=".json", dir=None, delete=False).name
         os.unlink(out)
         corpus = tempfile.mkdtemp(prefix="corpus-%s-" % target)
         env = dict(os.environ, PYTHONPATH=os.pathsep.join([ROOT, os.path.join(ROOT, ".deps")]))
